@@ -5,6 +5,7 @@ import Heathcliff.Proofs.C20F
 import Heathcliff.Proofs.C20G
 import Heathcliff.Proofs.C20H
 import Heathcliff.Proofs.C20I
+import Heathcliff.Proofs.C20J
 
 /- Property C20: homomorphic matrix products and convolutions equal plaintext ones, all shapes.
    Property theorems only (proofs are the helper lemmas of Heathcliff/Proofs/C20*.lean). -/
@@ -184,13 +185,28 @@ theorem encode_weights_whole : type_of% @HC.c20_encodeWeights_ok := @HC.c20_enco
     `b·i·o ≤ n`, any coefficient type) -/
 theorem outputs_encode_decode_whole : type_of% @HC.c20_outputs_encode_decode := @HC.c20_outputs_encode_decode
 
-/-- the whole-matrix form for BOTH packing modes: kept as a statement.  The non-packed half is `outputs_encode_decode_whole`
-    (proved); the LWE-packed layout (`h.pack = true`) is covered by the correspondence (`mm_enco`, `mm_dec` model lines and the
-    `mm_outputs_roundtrip` runs through real encryption on every shape) -/
+/-- **outputs: decode ∘ encode = id over the whole matrix WITH LWE packing** (`h.pack = true`): output block `c = d1·obc + d2` is written
+    into packed polynomial `c / ib` at slot offset `c mod ib` and read back from there; every shape, every positive block triple with
+    `b·i·o ≤ n`, any coefficient type -/
+theorem outputs_encode_decode_packed : type_of% @HC.c20_outputs_encode_decode_packed := @HC.c20_outputs_encode_decode_packed
+
+/-- one packed output polynomial as a function of the position (total; reading at the decoder's position returns the entry) -/
+theorem packed_poly_spec : type_of% @HC.c20_packedPoly_spec := @HC.c20_packedPoly_spec
+
+/-- the index map of `decrypt_outputs_*` over ALL blocks in BOTH packing modes -/
+theorem decode_outputs_gen : type_of% @HC.c20_decodeOutputs_gen := @HC.c20_decodeOutputs_gen
+
+/-- the whole-matrix form for BOTH packing modes (all blocks, through `encodeOutputs` / `decodeOutputs`) -/
 def OutputsEncodeDecodeStatement : Prop :=
   ∀ (h : Helper) (y : Nat → Nat), 0 < h.bb → 0 < h.ib → 0 < h.ob → h.bb * h.ib * h.ob ≤ h.n → (h.pack = true → h.n % h.ib = 0) →
     ∃ polys dec, encodeOutputs h 0 y (h.bs * h.od) = .ok polys ∧ decodeOutputs h 0 polys = .ok dec ∧
       ∀ k, k < h.bs * h.od → dec.getD k 0 = y k
+
+/-- ... PROVED (formerly a statement only); the divisibility hypothesis is not needed -/
+theorem OutputsEncodeDecodeStatement_proof : OutputsEncodeDecodeStatement := by
+  intro h y hbb hib hob hfit _
+  obtain ⟨polys, dec, h1, h2, _, h4⟩ := HC.c20_outputs_encode_decode_both (0 : Nat) h y hbb hib hob hfit
+  exact ⟨polys, dec, h1, h2, h4⟩
 
 /-- selected-terms transport: the transported coefficient set (`output_terms`) contains every position the decoder reads -/
 theorem terms_transport (h : Helper) (db dj : Nat) (hdb : db < h.bb) (hdj : dj < h.ob) : outPos h db dj ∈ outputTerms h :=
@@ -231,7 +247,7 @@ example (x w : Nat → ℤ) := cheetah_coeff ⟨2, 4, 2, 1, 3, 2, 8, false⟩ x 
   0 1 (by decide) (by decide)
 /-- the hypotheses of `cheetah_matmul_whole` are satisfiable (the blocks (3,1,2) of the 3×4·4×2 product at N = 8), and so are those of
     `cheetah_matmul_search` -/
-example (x w : Nat → ℤ) := cheetah_matmul_whole ⟨3, 4, 2, 3, 1, 2, 8, false⟩ x w (by decide) (by decide) (by decide) (by decide)
+example (x w : Nat → ℤ) := cheetah_matmul_whole ⟨3, 4, 2, 3, 1, 2, 8, false⟩ x w (by decide) (by decide) (by decide)
   (by decide) rfl
 example (x w : Nat → ℤ) := cheetah_matmul_search 3 4 2 8 .cipherPlain (by decide) (by decide) (by decide) (by decide)
   (by decide) x w
